@@ -266,7 +266,7 @@ impl Check for Merkle {
             if tc.balance(&id) != pool {
                 return Err(violation("claim.pays_exactly_once", "pool", i, format!("pool {} model {pool}", tc.balance(&id))));
             }
-            st.state(&(n.min(40), claimed.iter().filter(|x| **x).count().min(40)));
+            st.state(&(n.min(40), claimed.iter().filter(|x| **x).count().min(40), std::mem::discriminant(&effective), got, proof.len().min(9), pool >= amount));
         }
         Ok(())
     }
